@@ -1,0 +1,19 @@
+//go:build verif
+
+package v2
+
+// Contracts checked by /verif (govc). Comment-only file: it adds no code.
+
+//@ ghost func chartName(ch *Chart) string = ite(ch.Metadata == nil, "", ch.Metadata.Name)
+
+//@ func (*Chart).Name
+//@   props C14
+//@   requires ch != nil
+//@   pure
+//@   ensures result == chartName(ch)
+
+//@ func (*Chart).Dependencies
+//@   props C14
+//@   requires ch != nil
+//@   pure
+//@   ensures result == ch.dependencies
